@@ -32,6 +32,7 @@ TStep(e) ==
     [] e.a = "Start"      -> EvStart(e.t, e.from)
     [] e.a = "Add"        -> EvAdd(e.t)
     [] e.a = "Resume"     -> EvResume(e.t)
+    [] e.a = "Queue"      -> EvQueue(e.s)
     [] e.a = "Delete"     -> EvDelete(e.t)
     [] e.a = "Removable"  -> EvRemovable(SetOf(e.S))
     [] e.a = "Exhausted"  -> EvExhausted
